@@ -1,10 +1,12 @@
 (* C05 -- property theorems. This file holds ONLY statements, `exact <lemma>`, non-vacuity examples and
    Print Assumptions.  Models: Model/C05_pipeline.v (collocate_filesets on top of C03's match_model),
    Model/C05_queue.v (the result queue between workers and parent, all interleavings) and Model/C05_queue_live.v
-   (scheduler, measures and weaker parents used to state liveness and the role of the final drain). *)
+   (scheduler, measures and weaker parents used to state liveness and the role of the final drain);
+   Model/C05_skips.v (the worker's loop over a flat pair list in which some pairs yield nothing at all, and the loop of
+   seeded change C05-j whose final flush is guarded by processed == len(matches)). *)
 From Coq Require Import ZArith List Bool Permutation.
-From Typhon Require Import Model.C03_tree Model.C05_pipeline Model.C05_queue Model.C05_queue_live.
-From Typhon Require Import Proofs.C05_bundle Proofs.C05_pipeline Proofs.C05_queue Proofs.C05_queue_live.
+From Typhon Require Import Model.C03_tree Model.C05_pipeline Model.C05_queue Model.C05_queue_live Model.C05_skips.
+From Typhon Require Import Proofs.C05_bundle Proofs.C05_pipeline Proofs.C05_queue Proofs.C05_queue_live Proofs.C05_skips.
 Import ListNotations.
 Open Scope Z_scope.
 
@@ -65,6 +67,43 @@ Proof. exact bundling_lossless_lemma. Qed.
 
 Theorem bundles_nonempty : forall md items, Forall (fun g => g <> []) (loop md items [] None).
 Proof. exact bundles_nonempty_lemma. Qed.
+
+(* BUNDLING WITH SKIPPED PAIRS.  res = one entry per file pair of the worker's flat list `matches`: the pair is skipped
+   (align yields nothing: a file was unreadable and skip_file_errors is set), yields None, or yields a collocation set --
+   in ARBITRARY positions.  The loop sees fewer items than pairs, tags the k-th yielded result with the primary of the
+   k-th pair (`matches[processed]` lags behind) and `processed` never reaches len(matches); all the same the bundles
+   handed to _save_and_return, the last cached one included, hold exactly the sets of the pairs that were not skipped,
+   in order -- for every bundle mode. *)
+Theorem bundling_lossless_with_skips : forall md (res : list (Z * pres)),
+  concat (map (@concat (pt * pt)) (loop md (items_of res) [] None)) = concat (founds res).
+Proof. exact bundling_lossless_with_skips_lemma. Qed.
+
+(* ... and this IS the item list of a worker of the pipeline model (skip_errors_local is proved about it): the pairs of
+   the unreadable file are PSkipped, the others PNone / PFound by collocate *)
+Theorem worker_items_with_skips : forall collocate c bad A B ch,
+  worker_items collocate c bad A B ch = items_of (worker_results collocate c bad A B ch).
+Proof. exact worker_items_results. Qed.
+
+(* the loop of seeded change C05-j (final flush inside the loop body, guarded by processed == len(matches)), exactly:
+   without a skipped pair it is the real loop; with one it hands over everything but the worker's last bundle; and
+   that bundle is not empty as soon as the worker found anything and bundling is on *)
+Theorem guarded_final_flush_exact : forall md (res : list (Z * pres)),
+  (has_skip res = false ->
+     loop_counted md (length res) (items_of res) 0 [] None = loop md (items_of res) [] None) /\
+  (has_skip res = true ->
+     loop md (items_of res) [] None
+     = loop_counted md (length res) (items_of res) 0 [] None ++ last_bundle md (items_of res)) /\
+  (md <> MNone -> founds res <> [] -> last_bundle md (items_of res) <> []).
+Proof. exact counted_flush_exact_lemma. Qed.
+
+(* ... hence collocations are lost (a strict prefix comes out) for EVERY worker with a skipped pair, bundling and a
+   result -- wherever the skipped pair is, whether or not the lost collocations have to do with the unreadable file *)
+Theorem guarded_final_flush_loses : forall md (res : list (Z * pres)),
+  has_skip res = true -> md <> MNone -> founds res <> [] -> Forall (fun s : cset => s <> []) (founds res) ->
+  exists lost : cset, lost <> [] /\
+    concat (map (@concat (pt * pt)) (loop_counted md (length res) (items_of res) 0 [] None)) ++ lost
+    = concat (founds res).
+Proof. exact counted_flush_loses_lemma. Qed.
 
 (* np.array_split over k >= 1 workers is a partition of the match list into k consecutive chunks *)
 Theorem array_split_partition : forall X k (l : list X), (0 < k)%nat ->
@@ -206,6 +245,27 @@ Proof.
   vm_compute. repeat split.
 Qed.
 
+(* non-vacuity of the theorems on skipped pairs: four file pairs, the SECOND (middle) one skipped, collocations in the
+   pairs after it, the last one on the next day.  The tags lag behind (the set of primary 1 is tagged 0), bundling by
+   primary and by day both give [s0; s1] and [s2]; the real loop hands over both bundles, the loop of seeded change
+   C05-j only the first: the collocation of primary 2 is lost although primary 2 and its partner were readable. *)
+Example skips_nonvacuous :
+  let P := fun t i => {| ptime := t; pid := i |} in
+  let s0 := [(P 10 0, P 12 100)] in let s1 := [(P 20 1, P 21 101)] in let s2 := [(P (DAY + 5) 2, P (DAY + 7) 102)] in
+  let res := [(0, PFound s0); (0, PSkipped); (1, PFound s1); (2, PFound s2)] in
+  has_skip res = true /\ founds res = [s0; s1; s2] /\ Forall (fun s : cset => s <> []) (founds res) /\
+  items_of res = [(0, Some s0); (0, Some s1); (1, Some s2)] /\
+  loop MPrimary (items_of res) [] None = [[s0; s1]; [s2]] /\
+  loop MDaily (items_of res) [] None = [[s0; s1]; [s2]] /\
+  loop_counted MPrimary (length res) (items_of res) 0 [] None = [[s0; s1]] /\
+  loop_counted MDaily (length res) (items_of res) 0 [] None = [[s0; s1]] /\
+  last_bundle MDaily (items_of res) = [[s2]].
+Proof.
+  cbv zeta. split; [reflexivity|]. split; [reflexivity|].
+  split; [repeat first [apply Forall_nil | apply Forall_cons]; intros H; discriminate H|].
+  vm_compute. repeat split.
+Qed.
+
 Example queue_nonvacuous : exists tr s,
   qrun 2 (init [[1; 2]; [3]]) tr = Some s /\ pc s = Exited /\ yielded s = [3; 1; 2].
 Proof. exact queue_example. Qed.
@@ -240,6 +300,10 @@ Print Assumptions independent_of_split_processes_bundle.
 Print Assumptions skip_errors_local.
 Print Assumptions bundling_lossless.
 Print Assumptions bundles_nonempty.
+Print Assumptions bundling_lossless_with_skips.
+Print Assumptions worker_items_with_skips.
+Print Assumptions guarded_final_flush_exact.
+Print Assumptions guarded_final_flush_loses.
 Print Assumptions array_split_partition.
 Print Assumptions file_output_lossless.
 Print Assumptions same_name_overwrites.
